@@ -101,9 +101,9 @@ Qed.
 (* files of the wrong kind are refused *)
 Theorem refuse_wrong_kind data tr ic ia k : get "kind" data = Some (JStr k) -> String.eqb k "partial" = false ->
   exists code, read_full data tr ic ia = RErr code.
-Proof. intros Hk Hne. unfold read_full, check_version. rewrite Hk. simpl. rewrite Hne. simpl. eexists. reflexivity. Qed.
+Proof. intros Hk Hne. unfold read_full, read_fields, check_version. rewrite Hk. simpl. rewrite Hne. simpl. eexists. reflexivity. Qed.
 Theorem refuse_missing_kind data tr ic ia : get "kind" data = None -> exists code, read_full data tr ic ia = RErr code.
-Proof. intros Hk. unfold read_full, check_version. rewrite Hk. simpl. eexists. reflexivity. Qed.
+Proof. intros Hk. unfold read_full, read_fields, check_version. rewrite Hk. simpl. eexists. reflexivity. Qed.
 (* schema versions below 7 or above 19 are refused *)
 Lemma check_version_refuses data a b : get "kind" data = Some (JStr "partial") -> get "EVENT_SCHEMA_VERSION" data = Some (JArr [JInt a; JInt b]) ->
   (a < 7 \/ 19 < a)%Z -> exists code, check_version data = RErr code.
@@ -118,7 +118,7 @@ Qed.
 Theorem refuse_version data tr ic ia a b : get "kind" data = Some (JStr "partial") -> get "EVENT_SCHEMA_VERSION" data = Some (JArr [JInt a; JInt b]) ->
   (a < 7 \/ 19 < a)%Z -> exists code, read_full data tr ic ia = RErr code.
 Proof.
-  intros Hk Hv Hr. destruct (check_version_refuses data a b Hk Hv Hr) as (code & Hc). unfold read_full. rewrite Hc. exists code. reflexivity.
+  intros Hk Hv Hr. destruct (check_version_refuses data a b Hk Hv Hr) as (code & Hc). unfold read_full, read_fields. rewrite Hc. exists code. reflexivity.
 Qed.
 
 (* ------------------------------------------------------------------ C13: lookups are keyed by the selected track *)
